@@ -168,17 +168,24 @@ class ExpandedTraceback:
         """
         Filter out unnecessary frames
         """
-        if not self.exception:
+        if self.exception is None:
             return []
         cl, exc, tb = self.exc_info
         while tb and self._is_relevant_tb_level(tb):
             tb = tb.tb_next
         length = self._count_relevant_tb_levels(tb)
-        tb_e = traceback.TracebackException(cl, self.exception, tb, limit=length,
-                                            capture_locals=False)
-        for frame in tb_e.stack:
+        try:
+            stack = traceback.TracebackException(cl, self.exception, tb, limit=length,
+                                                 capture_locals=False).stack
+        except Exception:
+            # TracebackException inspects the exception object (its truth value,
+            # __cause__, __notes__ ...), which student code can make fail; the
+            # frames do not depend on the object, so a stand-in gives the same.
+            stack = traceback.TracebackException(BaseException, BaseException(), tb,
+                                                 limit=length, capture_locals=False).stack
+        for frame in stack:
             self._fix_frame_line(frame)
-        frames = list(tb_e.stack)
+        frames = list(stack)
         # A SyntaxError has to be handled differently to actually get its output:
         # https://docs.python.org/3/library/traceback.html#traceback.print_exception
         # (CPython gives no position for some of them, e.g. a NUL byte in the source)
